@@ -231,6 +231,9 @@ func runC06(r *Run) {
 	if r.Index < 6 {
 		shape = r.Index % 3
 	}
+	if r.Index == 8 || r.Index == 9 {
+		shape = 3
+	}
 	keys := []string{"r", "r\x00"}[:nRows]
 	clk := NewClock(1_700_000_000_000_321, 1_700_000_000_000_000_000)
 	w := NewBTWorld(r, engine, clk, "")
@@ -268,6 +271,13 @@ func runC06(r *Run) {
 					in = c06In{Kind: "read", Key: keys[0]}
 				}
 			default:
+				if shape == 3 && c == 0 && i == 0 {
+					// one request of several hundred entries (a bulk load) whose 256th, 257th, 512th
+					// and 513th entries are for the contended rows, while the other clients work on them
+					in = c06In{Kind: "bulk", Key: key, Muts: gen.mutations(d, 2, false), TrueM: gen.mutations(d, 2, false), FalseM: gen.mutations(d, 2, false)}
+					r.Probe("c06.bulk_request_vs_single_row_writers")
+					break
+				}
 				switch d.w(4, 3, 3, 4, 1) {
 				case 0:
 					in = c06In{Kind: "mutate", Key: key, Muts: gen.mutations(d, 3, false)}
@@ -349,6 +359,29 @@ func runC06(r *Run) {
 						ok := err == nil && cs[i] == codes.OK
 						// entries of one request are applied in order: give them nested, ordered windows
 						hist = append(hist, histOp{Client: c*10 + i, In: ein, Out: c06Out{OK: ok, Err: errStr(err)}, Call: call, Ret: ret})
+					}
+					if err != nil {
+						r.Fail("mutaterows-failed", "", "MutateRows stream failed: %v", err)
+					}
+				case "bulk":
+					k2 := keys[len(keys)-1]
+					var entries []entryIn
+					at := map[int]entryIn{255: {Key: in.Key, Muts: in.Muts}, 256: {Key: k2, Muts: in.TrueM}, 511: {Key: in.Key, Muts: in.FalseM}, 512: {Key: k2, Muts: in.Muts}}
+					for i := 0; i < 530; i++ {
+						if e, ok := at[i]; ok {
+							entries = append(entries, e)
+						} else {
+							entries = append(entries, entryIn{Key: fmt.Sprintf("m%04d", i), Muts: mutList{setCell("f1", "q", 1000, "fill")}})
+						}
+					}
+					cs, err := w.MutateRows(tbl, entries)
+					evt++
+					ret := evt
+					for _, i := range []int{255, 256, 511, 512} {
+						e := entries[i]
+						ein := c06In{Kind: "mutate", Key: e.Key, Muts: e.Muts, Desc: fmt.Sprintf("MutateRows (530 entries) entry %d %q %s", i, e.Key, mutsString(e.Muts))}
+						ok := err == nil && cs[i] == codes.OK
+						hist = append(hist, histOp{Client: c*1000 + i, In: ein, Out: c06Out{OK: ok, Err: errStr(err)}, Call: call, Ret: ret})
 					}
 					if err != nil {
 						r.Fail("mutaterows-failed", "", "MutateRows stream failed: %v", err)
